@@ -74,6 +74,9 @@ def _recursive_element_of(space, names):
 
     elif isinstance(space, ProductSpace):
         spaces = space.spaces
+        if len(names) != len(spaces):
+            msg = 'Expecting {} names (one per component space), got {}'.format(len(spaces), len(names))
+            raise ValueError(msg)
         result = [_recursive_element_of(s, n) for s, n in zip(spaces, names)]
         return type(names)(result)
 
@@ -115,6 +118,9 @@ def _recursive_elements_of(space, names):
 
     elif isinstance(space, ProductSpace):
         spaces = space.spaces
+        if len(names) != len(spaces):
+            msg = 'Expecting {} names (one per component space), got {}'.format(len(spaces), len(names))
+            raise ValueError(msg)
         result = [_recursive_elements_of(s, n) for s, n in zip(spaces, names)]
         return type(names)(result)
 
